@@ -65,13 +65,19 @@ def execute(S, d: dict, keep: list | None = None):
     """Returns ['ok', canonical] or ['exc', class name, message]; with capture_warnings() on, a third/fourth
     element lists the categories of the warnings the call emitted."""
     _TL.buf = [] if _CAPTURE["on"] else None
+    warned = None
     try:
         r = _dispatch(S, d, keep)
+        # only what the call itself emitted: rendering the result below reads accessors (`compact`) that a tree
+        # may have deprecated - warnings caused by the harness's own reads are not part of the call's outcome
+        warned, _TL.buf = _TL.buf, None
         out = ["ok", canon(r)]
     except Exception as e:  # noqa: BLE001
+        if warned is None:
+            warned = _TL.buf
         out = ["exc", type(e).__name__, str(e)[:200]]
-    if _TL.buf:
-        out.append({"warnings": sorted(set(_TL.buf))})
+    if warned:
+        out.append({"warnings": sorted(set(warned))})
     _TL.buf = None
     return out
 
